@@ -2201,7 +2201,7 @@ protected:    // interface for the derived class
                                           ::boost::msm::back::EventSource source = ::boost::msm::back::EVENT_SOURCE_DEFAULT)
     {
         // if the state machine has terminate or interrupt flags, check them, otherwise skip
-        if (is_event_handling_blocked_helper<Event>
+        if (is_event_handling_blocked_helper<typename std::decay<Event>::type>
                 ( ::boost::mpl::bool_<has_fsm_blocking_states<library_sm>::type::value>() ) )
         {
             return ::boost::msm::back::HANDLED_TRUE;
